@@ -955,6 +955,7 @@ func runCheck(mode string, args []string) {
 		}
 	}
 	matched, mismatched := 0, 0
+	patientRuns := 0
 	var mismatchNotes []string
 	confirmed := map[*CounterExample]string{}
 	spurious := 0
@@ -996,10 +997,11 @@ func runCheck(mode string, args []string) {
 					continue
 				}
 				if p.ce == nil {
-					if strings.Contains(o.Crash, "(hang)") && p.res.Outcome == "OK" {
+					if strings.Contains(o.Crash, "(hang)") && p.res.Outcome == "OK" && patientRuns < 3 {
+						patientRuns++
 						// the engine predicts a normal end and the native run hit the 25 s watchdog: before calling it
 						// a mismatch, run the vector alone with a patient limit (a loaded machine must not break a check)
-						if o2, _, err2 := rp.runBatch(targets[tn], []replayVector{p.vec}, 12*time.Minute); err2 == nil && len(o2) == 1 {
+						if o2, _, err2 := rp.runBatch(targets[tn], []replayVector{p.vec}, 11*time.Minute); err2 == nil && len(o2) == 1 {
 							o = &o2[0]
 						}
 					}
